@@ -146,7 +146,9 @@ def run_check(ctx, mod, replay):
         else:
             unexplained.append(b)
     if unexplained:
-        have_concrete = any(v.get("concrete") for v in ctx.violations)
+        _known = {f["key"] for f in common.load_findings() if f.get("property") == pid and f.get("status") == "open"}
+        # a known finding was already there before the obligation broke: it explains nothing
+        have_concrete = any(v.get("concrete") and v["key"] not in _known for v in ctx.violations)
         names = ", ".join("%s %s" % (b["kind"], b["name"]) for b in unexplained)
         if not have_concrete:
             ctx.violations.append({"key": "broken:" + common.sha(names), "concrete": False,
